@@ -221,6 +221,9 @@ Proof. reflexivity. Qed.
 Lemma np_go_cons : forall a r, np_go (a :: r) = (s <- np_flat a ;; ss <- np_go r ;; Ok (s :: ss)).
 Proof. reflexivity. Qed.
 
+Lemma np_flat_PArr : forall dt l, exists sh, np_flat (PArr dt l) = Ok (sh, l).
+Proof. intros dt l. destruct l as [|e [|e2 r]]; eexists; reflexivity. Qed.
+
 Lemma np_flat_wf : forall s db x sl, np_flat x = Ok sl -> wfv PW db s x = true -> forallb (wfv PW db s) (snd sl) = true.
 Proof.
   intros s db x. induction x using pyval_nested_ind; intros sl E W.
@@ -237,7 +240,103 @@ Proof.
     destruct subs as [|[s0 lv0] rest].
     + inversion E; reflexivity.
     + destruct (all_eq_shape s0 _); inversion E; subst. cbn [snd]. exact (G _ eq_refl).
-  - cbn [np_flat] in E. inversion E; subst. cbn [snd]. cbn [wfv] in W. apply andb_true_iff in W. tauto.
+  - destruct (np_flat_PArr dt l) as [sh E']. rewrite E' in E. inversion E; subst. cbn [snd]. cbn [wfv] in W.
+    apply andb_true_iff in W. tauto.
+Qed.
+
+(* ---------------------------------------------------------------- the tagged traversal np.array uses, and the untagged one *)
+Definition np_go_t := fix go (l : list pyval) : res (list (list nat * list (bool * pyval))) :=
+  match l with
+  | [] => Ok []
+  | a :: r => s <- np_flat_t a ;; ss <- go r ;; Ok (s :: ss)
+  end.
+
+Lemma np_flat_t_PList : forall l, np_flat_t (PList l) =
+  (subs <- np_go_t l ;;
+   match subs with
+   | [] => Ok ([0%nat], [])
+   | (s0, _) :: _ =>
+       if forallb (fun p => if list_eq_dec Nat.eq_dec s0 (fst p) then true else false) subs
+       then Ok (length subs :: s0, flat_map snd subs) else Raise ValueError
+   end).
+Proof. reflexivity. Qed.
+
+Lemma np_go_t_cons : forall a r, np_go_t (a :: r) = (s <- np_flat_t a ;; ss <- np_go_t r ;; Ok (s :: ss)).
+Proof. reflexivity. Qed.
+
+Definition untag (p : list nat * list (bool * pyval)) : list nat * list pyval := (fst p, map snd (snd p)).
+Definition untag_res (r : res (list nat * list (bool * pyval))) : res (list nat * list pyval) :=
+  match r with Ok p => Ok (untag p) | Raise e => Raise e end.
+
+Lemma all_eq_shape_untag : forall s0 subs,
+  all_eq_shape s0 (map untag subs) = forallb (fun p => if list_eq_dec Nat.eq_dec s0 (fst p) then true else false) subs.
+Proof.
+  intros s0. induction subs as [|[s' tl] r IH]; [reflexivity|]. cbn [map untag all_eq_shape forallb fst]. rewrite IH. reflexivity.
+Qed.
+
+Lemma flat_map_untag : forall subs, flat_map snd (map untag subs) = map snd (flat_map snd subs).
+Proof.
+  induction subs as [|[s' tl] r IH]; [reflexivity|]. cbn [map untag flat_map snd fst]. rewrite IH, map_app. reflexivity.
+Qed.
+
+(* np_flat is np_flat_t with the tags forgotten (same shape, same leaves, same exception) *)
+Lemma np_flat_untag : forall x, np_flat x = untag_res (np_flat_t x).
+Proof.
+  intros x. induction x using pyval_nested_ind; try reflexivity.
+  - rewrite np_flat_PList, np_flat_t_PList.
+    assert (G : np_go l = match np_go_t l with Ok subs => Ok (map untag subs) | Raise e => Raise e end).
+    { induction H as [|a r Ha _ IH]; [reflexivity|]. rewrite np_go_cons, np_go_t_cons, Ha, IH.
+      destruct (np_flat_t a) as [sa|]; cbn [untag_res bind]; [|reflexivity].
+      destruct (np_go_t r) as [ss|]; cbn [bind]; reflexivity. }
+    rewrite G. destruct (np_go_t l) as [subs|]; cbn [bind untag_res]; [|reflexivity].
+    destruct subs as [|[s0 tl0] rest]; [reflexivity|].
+    change (map untag ((s0, tl0) :: rest)) with ((s0, map snd tl0) :: map untag rest).
+    cbv iota beta.
+    change ((s0, map snd tl0) :: map untag rest) with (map untag ((s0, tl0) :: rest)).
+    rewrite all_eq_shape_untag, flat_map_untag, map_length.
+    destruct (forallb _ ((s0, tl0) :: rest)); reflexivity.
+  - destruct l as [|e [|e2 r]]; try reflexivity.
+    cbn [np_flat np_flat_t untag_res]. unfold untag. cbn [fst snd]. rewrite map_map. cbn [snd]. rewrite map_id. reflexivity.
+Qed.
+
+Lemma np_flat_t_flat : forall x sh tl, np_flat_t x = Ok (sh, tl) -> np_flat x = Ok (sh, map snd tl).
+Proof. intros x sh tl H. rewrite np_flat_untag, H. reflexivity. Qed.
+
+Lemma np_flat_t_of_flat : forall x sh l, np_flat x = Ok (sh, l) -> exists tl, np_flat_t x = Ok (sh, tl) /\ map snd tl = l.
+Proof.
+  intros x sh l H. rewrite np_flat_untag in H. destruct (np_flat_t x) as [[sh' tl]|]; [|discriminate].
+  cbn [untag_res untag fst snd] in H. inversion H; subst. eauto.
+Qed.
+
+(* a list of Python values that are neither lists nor arrays: every leaf is converted by the checked conversion *)
+Definition is_pyatom (x : pyval) : bool := match x with PList _ | PArr _ _ => false | _ => true end.
+
+Lemma np_flat_t_atom : forall x, is_pyatom x = true -> np_flat_t x = Ok ([], [(false, x)]).
+Proof. destruct x; cbn [is_pyatom]; intros; try discriminate; reflexivity. Qed.
+
+Lemma np_flat_t_atoms : forall l, forallb is_pyatom l = true -> exists sh, np_flat_t (PList l) = Ok (sh, map (fun x => (false, x)) l).
+Proof.
+  intros l H. rewrite np_flat_t_PList.
+  assert (G : np_go_t l = Ok (map (fun x => (@nil nat, [(false, x)])) l)).
+  { induction l as [|a r IH]; [reflexivity|]. cbn [forallb] in H. apply andb_true_iff in H. destruct H as [Ha Hr].
+    cbn [map]. rewrite np_go_t_cons, (np_flat_t_atom a Ha), (IH Hr). reflexivity. }
+  rewrite G. cbn [bind]. destruct l as [|a r]; [eexists; reflexivity|].
+  change (map (fun x => (@nil nat, [(false, x)])) (a :: r)) with ((@nil nat, [(false, a)]) :: map (fun x => (@nil nat, [(false, x)])) r).
+  cbv iota beta.
+  change ((@nil nat, [(false, a)]) :: map (fun x => (@nil nat, [(false, x)])) r) with (map (fun x => (@nil nat, [(false, x)])) (a :: r)).
+  assert (A : forall l0 : list pyval, forallb (fun p : list nat * list (bool * pyval) => if list_eq_dec Nat.eq_dec (@nil nat) (fst p) then true else false)
+                (map (fun x => (@nil nat, [(false, x)])) l0) = true).
+  { induction l0 as [|x l0 IH0]; [reflexivity|]. cbn [map forallb fst]. rewrite IH0.
+    destruct (list_eq_dec Nat.eq_dec (@nil nat) []) as [_|n]; [reflexivity|congruence]. }
+  assert (B : forall l0 : list pyval, flat_map snd (map (fun x => (@nil nat, [(false, x)])) l0) = map (fun x => (false, x)) l0).
+  { induction l0 as [|x l0 IH0]; [reflexivity|]. cbn [map flat_map snd app]. rewrite IH0. reflexivity. }
+  rewrite A, B. eexists; reflexivity.
+Qed.
+
+Lemma np_array_pylist : forall dt l, forallb is_pyatom l = true -> np_array dt (PList l) = mapM (conv_leaf dt) l.
+Proof.
+  intros dt l H. cbn [np_array]. destruct (np_flat_t_atoms l H) as [sh ->]. cbn [bind snd].
+  clear H. induction l as [|a r IH]; [reflexivity|]. cbn [map mapM conv_tagged fst snd]. rewrite IH. reflexivity.
 Qed.
 
 (* C cast of the elements of an ndarray of another dtype: lands in the storage range when the dtype has a sane width *)
@@ -280,14 +379,27 @@ Proof.
   assert (wfv PW db s b = true) as -> by (destruct Hb as [->|Hb]; auto using leafval_wf). auto.
 Qed.
 
+Lemma conv_tagged_all : forall dt s db tl l', dt_wok dt -> Forall2 (fun a b => conv_tagged dt a = Ok b) tl l' ->
+  forallb (wfv PW db s) (map snd tl) = true ->
+  length l' = length tl /\ forallb (fits dt) l' = true /\ forallb (wfv PW db s) l' = true.
+Proof.
+  intros dt s db tl l' Hd H. induction H as [|a b l l' Hab _ IH]; intros W; cbn [map forallb length] in *; auto.
+  apply andb_true_iff in W. destruct W as [Wa Wl]. destruct (IH Wl) as (L & F & W').
+  assert (Hb : fits dt b = true /\ (b = snd a \/ is_leafval b = true)).
+  { unfold conv_tagged in Hab. destruct (fst a); [apply conv_elem_ok in Hab; auto | apply conv_leaf_ok in Hab; auto]. }
+  destruct Hb as [Fb Hb]. rewrite L, Fb, F, W'.
+  assert (wfv PW db s b = true) as -> by (destruct Hb as [->|Hb]; auto using leafval_wf). auto.
+Qed.
+
 Lemma np_array_ok : forall dt s db y l, dt_wok dt -> wfv PW db s y = true -> np_array dt y = Ok l ->
   forallb (fits dt) l = true /\ forallb (wfv PW db s) l = true.
 Proof.
   intros dt s db y l Hd W H.
-  assert (Old : (sl <- np_flat y ;; mapM (conv_leaf dt) (snd sl)) = Ok l ->
+  assert (Old : (sl <- np_flat_t y ;; mapM (conv_tagged dt) (snd sl)) = Ok l ->
                 forallb (fits dt) l = true /\ forallb (wfv PW db s) l = true).
-  { intros H'. destruct (np_flat y) as [shl|] eqn:N; cbn [bind] in H'; [|discriminate].
-    apply mapM_Forall2 in H'. destruct (conv_all _ _ _ _ _ H' (np_flat_wf _ _ _ _ N W)) as (_ & F & W'). auto. }
+  { intros H'. destruct (np_flat_t y) as [[sh tl]|] eqn:N; cbn [bind snd] in H'; [|discriminate].
+    apply mapM_Forall2 in H'. pose proof (np_flat_wf _ _ _ _ (np_flat_t_flat _ _ _ N) W) as Wl. cbn [snd] in Wl.
+    destruct (conv_tagged_all _ _ _ _ _ Hd H' Wl) as (_ & F & W'). auto. }
   destruct y; try (apply Old; exact H).
   cbn [np_array] in H. apply mapM_Forall2 in H. cbn [wfv] in W. apply andb_true_iff in W. destruct W as [_ W].
   destruct (conv_elem_all _ _ _ _ _ Hd H W) as (_ & F & W'). auto.
@@ -939,8 +1051,13 @@ Lemma int_src_ok_ints : forall w zs, Forall (fun z => urange w z = true) zs ->
   int_src_ok TG (EPrim (KU w)) (PList (map PInt zs)) = true.
 Proof.
   intros w zs H. unfold int_src_ok. destruct (t_arr_precheck TG); [|reflexivity]. cbn [negb orb].
-  destruct (np_flat_ints zs) as [sh ->]. cbn [snd]. apply orb_true_iff. right. apply forallb_forall. intros y Hy.
-  apply in_map_iff in Hy. destruct Hy as (z & <- & Hin). cbn [int_leaf_ok int_in_range]. rewrite Forall_forall in H. auto.
+  assert (A : forall p : etype -> pyval -> bool, (forall z, urange w z = true -> p (EPrim (KU w)) (PInt z) = true) ->
+              forallb (p (EPrim (KU w))) (map PInt zs) = true).
+  { intros p Hp. apply forallb_forall. intros y Hy. apply in_map_iff in Hy. destruct Hy as (z & <- & Hin).
+    rewrite Forall_forall in H. auto. }
+  destruct (np_flat_ints zs) as [sh E]. destruct (t_src_exact TG); rewrite E; cbn [snd].
+  - apply A. intros z Hz. exact Hz.
+  - apply orb_true_iff. right. apply A. intros z Hz. exact Hz.
 Qed.
 
 Lemma int_src_ok_other : forall e y, match e with EPrim (KU _) | EPrim (KS _) => False | _ => True end ->
@@ -949,8 +1066,15 @@ Proof.
   intros e y He. unfold int_src_ok. destruct (t_arr_precheck TG); [|reflexivity]. cbn [negb orb].
   assert (A : forall l, forallb (int_leaf_ok e) l = true).
   { intros l. apply forallb_forall. intros x _. destruct e as [[|w|w|w]|t]; try contradiction; reflexivity. }
-  destruct y; try (destruct (np_flat _) as [sl|]; [|reflexivity]); rewrite ?A, ?orb_true_r; reflexivity.
+  assert (B : forall l, forallb (int_leaf_exact e) l = true).
+  { intros l. apply forallb_forall. intros x _. destruct e as [[|w|w|w]|t]; try contradiction; reflexivity. }
+  destruct (t_src_exact TG).
+  - destruct (np_flat y) as [sl|]; [apply B|reflexivity].
+  - destruct y; try (destruct (np_flat _) as [sl|]; [|reflexivity]); rewrite ?A, ?orb_true_r; reflexivity.
 Qed.
+
+Lemma pyatom_ints : forall zs, forallb is_pyatom (map PInt zs) = true.
+Proof. induction zs as [|z r IH]; [reflexivity|]. cbn [map forallb is_pyatom]. exact IH. Qed.
 
 Theorem array_length_exact : forall q fixed cap sl w zs, 1 <= w <= 64 -> Forall (fun z => urange w z = true) zs ->
   assign_array TG PW q fixed cap sl (EPrim (KU w)) (PList (map PInt zs)) =
@@ -959,7 +1083,7 @@ Theorem array_length_exact : forall q fixed cap sl w zs, 1 <= w <= 64 -> Forall 
 Proof.
   intros q fixed cap sl w zs Hw Hz. rewrite assign_array_gen.
   replace (strconv sl (PList (map PInt zs))) with (PList (map PInt zs)) by (destruct sl; reflexivity).
-  cbn [assignG]. unfold slowG. rewrite (int_src_ok_ints w zs Hz). unfold np_array. destruct (np_flat_ints zs) as [sh ->]. cbn [bind snd dtype_of].
+  cbn [assignG]. unfold slowG. rewrite (int_src_ok_ints w zs Hz). rewrite np_array_pylist by apply pyatom_ints. cbn [dtype_of].
   rewrite mapM_conv_ints by (eapply Forall_impl; [|exact Hz]; intros; apply urange_pwd; auto).
   cbn [bind]. rewrite map_length. unfold lenG.
   destruct (if fixed then Nat.eqb (length zs) cap else Nat.leb (length zs) cap); [|reflexivity].
